@@ -41,8 +41,16 @@ def main() -> int:
     # the plugins are first imported.  jax2onnx imports them lazily inside the first to_onnx call,
     # so a history that *starts* with a double-precision export would build float64 example
     # weights: a different request, not a different answer to the same request.  Load them now.
-    registry.corpus()
     reqs = list(cfg["requests"])
+    only_own = all(r.startswith(("hand:", "graph:")) for r in reqs)
+    if not (cfg.get("no_preload") and only_own):
+        registry.corpus()
+    if cfg.get("first_double") and only_own:
+        # the process's very first conversion (which also imports the plugins) runs in double precision
+        import jax.numpy as _jnp
+        from jax2onnx import to_onnx as _to_onnx
+
+        _to_onnx(lambda x: _jnp.tanh(x) * 2.0, [(2, 3)], enable_double_precision=True)
     order = cfg.get("order", "forward")
     if order == "reversed":
         reqs = reqs[::-1]
